@@ -403,6 +403,45 @@ func runC05(e *Env) {
 			kcases = append(kcases, c05Case{Key: k0.String(), Path: "lib", Chords: []absChord{step.before, {Root: "2", Symbol: "m"}, after, step.before, after}})
 		}
 	}
+	// the same written note on both sides of a change between ANY two keys (a converter that
+	// remembers what a spelling meant must key that memory by the whole key): for every ordered
+	// pair (K1, K2) and each of four notes, [N in K1] [N in K2, carrying the change] [N again]
+	between := func(a, b theory.Note) (string, bool) {
+		num := theory.LetterDistance(a, b)
+		size := theory.PitchDistance(a, b)
+		for _, q := range theory.AllQualities {
+			iv := theory.Interval{Num: num, Q: q}
+			if s, ok := iv.Size(); ok && s == size {
+				// chord text can write one accidental mark only: "", b (minor, or diminished of a perfect interval), #
+				switch {
+				case q == theory.Perfect || q == theory.Major:
+					return fmt.Sprint(num), true
+				case q == theory.Minor || q == theory.Diminished && theory.PerfectClass(num):
+					return "b" + fmt.Sprint(num), true
+				case q == theory.Augmented:
+					return "#" + fmt.Sprint(num), true
+				}
+				return "", false
+			}
+		}
+		return "", false
+	}
+	for _, k1 := range keys {
+		for _, k2 := range keys {
+			if k1 == k2 {
+				continue
+			}
+			sc := k2.Scale()
+			for _, n := range []theory.Note{sc[0], sc[2], sc[4], sc[6]} {
+				d1, ok1 := between(k1.Tonic, n)
+				d2, ok2 := between(k2.Tonic, n)
+				if !ok1 || !ok2 {
+					continue
+				}
+				kcases = append(kcases, c05Case{Key: k1.String(), Path: "lib", Chords: []absChord{{Root: d1, Symbol: "m7"}, {Root: d2, Symbol: "m7", Key: k2.String()}, {Root: d2}}})
+			}
+		}
+	}
 	mc.ParFor(len(kcases), func(i int) {
 		c := kcases[i]
 		if !c05Eval(e, &c, false) {
@@ -417,7 +456,7 @@ func runC05(e *Env) {
 			c05Eval(e, &cc, true)
 		}
 	})
-	e.R.AddPart(ev.Part{Name: "key-change-placements", Enumerated: "4-element progression (chord, chord with bass, rest, chord) x every non-empty subset of positions carrying {key=..} x 6^3 key triples from {C,Cb,F#,Am,Ebm,G#m}; plus the complete 28 x 28 graph of converter-scale changes (state = scale in force, every edge replayed as [chord][chord+key change][chord]); real binary for every 2nd (quick) / all (thorough)", Executions: int64(len(kcases)), States: 28, Transitions: int64(len(kcases)), Exhaustive: true})
+	e.R.AddPart(ev.Part{Name: "key-change-placements", Enumerated: "4-element progression (chord, chord with bass, rest, chord) x every non-empty subset of positions carrying {key=..} x 6^3 key triples from {C,Cb,F#,Am,Ebm,G#m}; plus the complete 28 x 28 graph of converter-scale changes (state = scale in force, every edge replayed as [chord][chord+key change][chord]); plus, for every ordered pair of keys, the same written note before and after the change; real binary for every 2nd (quick) / all (thorough)", Executions: int64(len(kcases)), States: 28, Transitions: int64(len(kcases)), Exhaustive: true})
 
 	// (c) transposition
 	var tc []c05Transpose
